@@ -483,6 +483,8 @@ def run_update_small(ck_ob, mod, label, maxlen=100):
                 if why is None and not mode.words_eq(words_at(p, ST, 0, 8), S + K):
                     why = "chaining value after the call: %s" % mode.first_diff(words_at(p, ST, 0, 8), S + K)
                 left = stream[16 * nblk:]
+                if any(b_ is gf2.TOP for i in range(r) for b_ in mem_byte(p, ST, 32 + i)):
+                    raise Broken("tinyjambu_hash_update: a buffered byte is not representable in the term domain: not decided by the small-length rule")
                 if why is None and not all(mem_byte(p, ST, 32 + i) == left[i] for i in range(r)):
                     why = "the %d left-over byte(s) of the stream are not at the start of the block buffer" % r
                 if why is None and p.lfmem.get((ST, 48, 4)) != Lf.c(r):
